@@ -271,4 +271,12 @@ def _first_empty(ctx, base, k):
     return True
 
 
-OBLIGATIONS = [C20a, C20b]
+from obligations.c08 import C08f  # noqa: E402
+
+
+class C20c(C08f):
+    id = 'C20.c'
+    title = 'the script location from which the ancestor directories are derived is the ABSOLUTE path of the buffer, however the path was given (see C08.f)'
+
+
+OBLIGATIONS = [C20a, C20b, C20c]
